@@ -360,3 +360,146 @@ pub fn replica_history(r: &mut Rng, g: &mut G, n: usize, replicas: u8) -> Vec<St
     }
     steps
 }
+
+/// replica history where a share of the syncs is preceded by an altered proof (C04, C13)
+pub fn tamper_history(r: &mut Rng, g: &mut G, n: usize, replicas: u8, all: bool) -> Vec<Step> {
+    let base = replica_history(r, g, n, replicas);
+    let mut steps = vec![];
+    for s in base {
+        match s {
+            Step::Sync { to, req } => {
+                if all {
+                    if r.chance(1, 3) {
+                        steps.push(Step::TamperAll { to, req });
+                    } else {
+                        steps.push(Step::Sync { to, req });
+                    }
+                } else if r.chance(2, 3) {
+                    let mutation = crate::tamper::rand_mutation(r);
+                    steps.push(Step::Tamper { to, req, mutation });
+                } else {
+                    steps.push(Step::Sync { to, req });
+                }
+            }
+            other => steps.push(other),
+        }
+    }
+    steps
+}
+
+/// boundary values around 0, len, 2*len and large values
+pub fn boundary(r: &mut Rng, len: u64) -> u64 {
+    let l = len;
+    let c = [
+        0u64, 1, 2, l.saturating_sub(1), l, l + 1, (2 * l).saturating_sub(1), 2 * l, 2 * l + 1,
+        1 << 20, 1 << 32, (1 << 40) - 1,
+    ];
+    if r.chance(1, 6) {
+        r.below(2 * l + 3)
+    } else {
+        *r.pick(&c)
+    }
+}
+
+fn raw_nodes(r: &mut Rng, len: u64) -> Vec<crate::tamper::RawNode> {
+    let k = match r.below(6) {
+        0 => 0,
+        1 => 1,
+        _ => r.range(1, 5),
+    };
+    (0..k)
+        .map(|_| crate::tamper::RawNode {
+            index: if r.chance(3, 4) { r.below(2 * len + 4) } else { boundary(r, len) },
+            size: if r.chance(1, 2) { r.below(64) } else { boundary(r, len) },
+            kind: r.below(8).min(3) as u8 % 4,
+            salt: r.next(),
+        })
+        .collect()
+}
+
+pub fn rand_raw_proof(r: &mut Rng, len: u64) -> crate::tamper::RawProofSpec {
+    let mut p = crate::tamper::RawProofSpec { fork: if r.chance(1, 10) { 1 } else { 0 }, ..Default::default() };
+    if r.chance(1, 2) {
+        let idx = boundary(r, len);
+        let vlen = if r.chance(1, 2) { u32::MAX } else { r.below(40) as u32 };
+        p.block = Some((idx, vlen, raw_nodes(r, len)));
+    } else if r.chance(1, 2) {
+        p.hash = Some((boundary(r, len), raw_nodes(r, len)));
+    }
+    if r.chance(1, 4) {
+        p.seek = Some((boundary(r, len * 8), raw_nodes(r, len)));
+    }
+    if r.chance(2, 3) {
+        p.upgrade = Some(crate::tamper::RawUpgrade {
+            start: boundary(r, len),
+            length: boundary(r, len),
+            nodes: raw_nodes(r, len),
+            additional: if r.chance(1, 3) { raw_nodes(r, len) } else { vec![] },
+            sig: r.below(5).min(3) as u8,
+        });
+    }
+    p
+}
+
+/// C09: cores (writer and replica, empty / single-root / multi-root / with cleared blocks) under
+/// byzantine requests and proofs, each followed by honest steps that must still match the model
+pub fn byzantine_history(r: &mut Rng, g: &mut G, n: usize) -> Vec<Step> {
+    let mut steps = vec![];
+    // shape of the log
+    match r.below(5) {
+        0 => {}
+        1 => {
+            let blk = g.blk(r);
+            g.len += 1;
+            steps.push(Step::Append { n: 0, blk });
+        }
+        _ => {
+            let k = *r.pick(&[2u64, 3, 4, 5, 7, 8, 9, 16, 17, 31]);
+            let blks: Vec<Blk> = (0..k).map(|_| g.blk(r)).collect();
+            g.len += k;
+            steps.push(Step::Batch { n: 0, blks });
+            if r.chance(1, 3) {
+                let (s, e) = g.clear_range(r);
+                steps.push(Step::Clear { n: 0, start: s, end: e.min(g.len + 1) });
+            }
+        }
+    }
+    // partially synced replica
+    for _ in 0..r.below(4) {
+        steps.push(Step::Sync { to: 1, req: rand_req(r) });
+    }
+    let nodes_vals = [0u64, 1, 2, 3, 64];
+    for _ in 0..n {
+        let node = r.below(2) as u8;
+        let l = g.len;
+        match r.below(10) {
+            0..=4 => {
+                let opt = |r: &mut Rng, p: u64| -> bool { r.below(10) < p };
+                let block = if opt(r, 5) { Some((boundary(r, l), if r.chance(1, 2) { *r.pick(&nodes_vals) } else { r.below(8) })) } else { None };
+                let hash = if opt(r, 3) { Some((boundary(r, l), *r.pick(&nodes_vals))) } else { None };
+                let seek = if opt(r, 3) { Some(boundary(r, l * 8)) } else { None };
+                let upgrade = if opt(r, 6) { Some((boundary(r, l), boundary(r, l))) } else { None };
+                steps.push(Step::RawRequest { n: node, block, hash, seek, upgrade });
+            }
+            5..=7 => steps.push(Step::RawProof { n: node, proof: rand_raw_proof(r, l) }),
+            8 => steps.push(Step::Tamper { to: 1, req: rand_req(r), mutation: crate::tamper::rand_mutation(r) }),
+            _ => {
+                // honest step: must still match the model
+                if r.chance(1, 2) {
+                    let blk = g.blk(r);
+                    g.len += 1;
+                    steps.push(Step::Append { n: 0, blk });
+                } else {
+                    steps.push(Step::Sync { to: 1, req: rand_req(r) });
+                }
+            }
+        }
+    }
+    let blk = g.blk(r);
+    g.len += 1;
+    steps.push(Step::Append { n: 0, blk });
+    steps.push(Step::Sync { to: 1, req: Req { block: Some(r.next() >> 8), upgrade: Some(u64::MAX >> 8), ..Default::default() } });
+    steps.push(Step::Scan { n: 0 });
+    steps.push(Step::Scan { n: 1 });
+    steps
+}
